@@ -5,7 +5,8 @@
 //!   I line: float bits of every observable (canonical format of CostRun.show_outs)
 //!   M line: the Gallina model in binary64 (CostRun.line_m)
 //!   S line: the specification in exact rationals judging the implementation's output (CostRun.line_s)
-//! `c07 probe --out DIR` prints the float-absorption probe (K_absorb) and the serde facts about Combined rates.
+//! `c07 probe --out DIR` prints the float-absorption probe (access share >= 2^51 x edge total; fixed in /repo by
+//! 693929c, total_cost() now floors the sum), serde facts about the rate enums, and writes corpus replay files.
 use routee_compass::app::compass::config::cost_model::cost_model_builder::CostModelBuilder;
 use routee_compass_core::algorithm::search::edge_traversal::EdgeTraversal;
 use routee_compass_core::algorithm::search::search_instance::SearchInstance;
@@ -339,7 +340,13 @@ fn build_cm(c: &Case, sm: Arc<StateModel>) -> Result<CostModel, String> {
     // travel as JSON; Combined rates (serde cannot read an internally tagged sequence variant) are put into the
     // service's public fields
     let via_json = !has_combined(&c.v);
-    let net_via_json = !c.n.iter().any(|(_, r)| matches!(r, NR::Combined(_)));
+    // (a non-empty EdgeLookup cannot be read from JSON either: inside the internally tagged enum the keys arrive as
+    //  buffered strings, "invalid type: string \"1\", expected usize")
+    let net_via_json = !c.n.iter().any(|(_, r)| match r {
+        NR::Combined(_) => true,
+        NR::Edge(l) => !l.is_empty(),
+        _ => false,
+    });
     let mut cfg = json!({
         "weights": obj(&c.w, |x| json!(x)),
         "cost_aggregation": if c.mul { "mul" } else { "sum" },
@@ -550,8 +557,8 @@ fn add_case(st: &mut Stream, c: Case, family: &str) {
     };
     let cq = coq_case(&c);
     let terms = vec![format!("line_m {} {}", coq_z(id as i128), cq), format!("line_s {} {} {}", coq_z(id as i128), cq, coq_outs(&out))];
-    // class predicate of the float-only absorption (K_absorb): the access share is so much larger than the
-    // floored total of the edge that `access + (total - access)` cannot represent the total
+    // class of the float-only absorption: the access share is so much larger than the (floored) total of the edge
+    // that `access + (total - access)` cannot represent the total; total_cost() then returns the floor (histogram only)
     let mut absorb = false;
     if let Ok(o) = &out {
         for (ac, ec) in [(&o.acf, &o.ecf), (&o.acr, &o.ecr)] {
@@ -987,7 +994,7 @@ fn boundary(st: &mut Stream) {
     add_case(st, c, "negative_traversal_share");
 }
 
-/// float-only absorption (K_absorb): access share >= 2^20 and the total of the edge floored to MIN_COST
+/// float-only absorption: access share >= 2^51 x the total of the edge (e.g. access >= 2^20 and the total floored)
 fn absorb_cases() -> Vec<Case> {
     let mut out = vec![];
     // one feature, raw rate, weight 1: the access model adds 4194304 (a turn penalty), the traversal model takes it back
@@ -1029,6 +1036,14 @@ fn probe(a: &Args) {
             "traversal_cost": o.as_ref().ok().and_then(|o| o.fwd.as_ref().ok().map(|t| t.1)),
             "edge_cost": o.as_ref().ok().and_then(|o| o.ecf.clone().ok())}));
     }
+    facts.insert(
+        "deserialize_network_edge_lookup".into(),
+        json!(format!("{:?}", serde_json::from_value::<NetworkCostRate>(json!({"type": "edge_lookup", "lookup": {"1": 5.0}})).map(|_| "ok"))),
+    );
+    facts.insert(
+        "deserialize_network_edge_edge_lookup".into(),
+        json!(format!("{:?}", serde_json::from_value::<NetworkCostRate>(json!({"type": "edge_edge_lookup", "lookup": {"0,1": 5.0}})).map(|_| "ok"))),
+    );
     facts.insert("k_absorb".into(), Value::Array(ab));
     // replay files (`./check C07 --replay FILE`) for the corpus
     std::fs::create_dir_all(&a.out).unwrap();
